@@ -19,8 +19,8 @@ a list of lines that is empty is written `E`; `N` stands for Python's `None`.
 `R|<lines>|<first>|<astLast>|<stmtEnd>`
   → `range=<a,b,…> spec=<a,b,…> D=<stmtRange | ->`
 
-`X|<lines>|<first>|<stmtEnd>|<adds>|<sharesLine><soleInBlock><isElif>`   (three 0/1 digits)
-  → `D=<classes | ->`   (stmtRange, sharedLine, emptyBlock, elifHeader)
+`X|<lines>|<first>|<stmtEnd>|<adds>|<sharesLine><soleInBlock><isElif><pctRisky>`   (four 0/1 digits)
+  → `D=<classes | ->`   (stmtRange, sharedLine, emptyBlock, elifHeader, fstringConversion)
 -/
 open Pya.C16
 open Pya.C11 (Line)
@@ -143,11 +143,12 @@ def handle (line : String) : String :=
     | _, _, _, _ => "bad-op"
   | ["X", ls, first, stmtEnd, adds, flags] =>
     match parseLines ls, first.toNat?, stmtEnd.toNat?, parseAdds adds, flags.toList with
-    | some ls, some first, some stmtEnd, some adds, [a, b, c] =>
+    | some ls, some first, some stmtEnd, some adds, [a, b, c, e] =>
       let fc : FixCase := { lines := ls, first := first, stmtEnd := stmtEnd, adds := adds,
-                            sharesLine := a == '1', soleInBlock := b == '1', isElif := c == '1' }
+                            sharesLine := a == '1', soleInBlock := b == '1', isElif := c == '1', pctRisky := e == '1' }
       let d := classes [(D16_stmtRange ls first stmtEnd, "stmtRange"), (D16_sharedLine fc, "sharedLine"),
-                        (D16_emptyBlock fc, "emptyBlock"), (D16_elifHeader fc, "elifHeader")]
+                        (D16_emptyBlock fc, "emptyBlock"), (D16_elifHeader fc, "elifHeader"),
+                        (D16_fstringConversion fc, "fstringConversion")]
       s!"D={d}"
     | _, _, _, _, _ => "bad-op"
   | _ => "bad-op"
